@@ -925,7 +925,12 @@ Definition lit_safe (radix w : N) (tok : string) : bool :=
 
 Definition unary_pre (u : unop) (t : ty) (toks : list string) : bool :=
   match t with
-  | TArr _ _ => false
+  | TArr _ _ =>
+      (* an extension by zero bits is the identity on any operand (the writer uses it as a name alias) *)
+      match u with
+      | UUext | USext => match parse_width (tokn toks 4) with Some by_ => by_ =? 0 | None => true end
+      | _ => false
+      end
   | TBV w =>
       match u with
       | UNot | UNeg | UUnsup => true
@@ -945,10 +950,10 @@ Definition unary_pre (u : unop) (t : ty) (toks : list string) : bool :=
 
 Definition binary_pre (bo : binop) (ta tb : ty) : bool :=
   match bo with
-  | BSame _ _ _ | BCmp _ _ =>
+  | BSame _ _ _ | BCmp _ _ | BUnsup =>
       match ta, tb with TBV wa, TBV wb => wa =? wb | _, _ => false end
   | BEq _ => ty_eqb ta tb
-  | BIff | BUnsup => true
+  | BIff => true
   | BImplies => ty_eqb ta (TBV 1) && ty_eqb tb (TBV 1)
   | BConcat => match ta, tb with TBV wa, TBV wb => wa + wb <=? U32MAX | _, _ => false end
   | BRead => negb (is_bv_ty ta)
@@ -1009,3 +1014,51 @@ Fixpoint pre_all (ls : list (list string)) (st : pstate) : bool :=
       | PPanic _ => true
       end
   end.
+
+(** ** the repaired reader ([Fix]): the patch series patches/000N-fix-btor2-*.diff makes the reader
+    report an error where [line_pre] fails, where a [sort bitvec 0] is declared, and where a
+    bad/constraint line refers to a node that is not Boolean; apart from that it is the shipped
+    reader ([Cur]).  A failing check leaves the state unchanged, like every other line error. *)
+Inductive code_variant : Type := Cur | Fix.
+
+Definition prop_bool (st : pstate) (toks : list string) : bool :=
+  let op := tokn toks 1 in
+  if seq op "bad" || seq op "constraint" then
+    match opnd_ty st (tokn toks 2) with Some t => ty_eqb t (TBV 1) | None => true end
+  else true.
+
+Definition line_fix_pre (st : pstate) (toks : list string) : bool :=
+  line_pre st toks && negb (zero_sort_line toks) && prop_bool st toks.
+
+Definition parse_line_v (v : code_variant) (dbg : bool) (st : pstate) (toks : list string) : pres pstate :=
+  match v with
+  | Cur => parse_line dbg st toks
+  | Fix => if line_fix_pre st toks then parse_line dbg st toks else PErr
+  end.
+
+Fixpoint parse_fold_v (v : code_variant) (dbg : bool) (ls : list (list string)) (st : pstate) (err : bool)
+  : pres (pstate * bool) :=
+  match ls with
+  | [] => POk (st, err)
+  | l :: ls' =>
+      match parse_line_v v dbg st l with
+      | POk st' => parse_fold_v v dbg ls' st' err
+      | PErr => parse_fold_v v dbg ls' st true
+      | PPanic k => PPanic k
+      end
+  end.
+
+Definition parse_raw_v (v : code_variant) (dbg : bool) (ls : list (list string)) : pres (sys * list (expr * string)) :=
+  r <- parse_fold_v v dbg ls p_empty false ;;
+  let '(st, err) := r in
+  if err then PErr else POk (sys_of_pstate st, renames_of st).
+
+Definition parse_lines_v (v : code_variant) (dbg : bool) (ls : list (list string)) : pres sys :=
+  r <- parse_raw_v v dbg ls ;;
+  let '(sy, ren) := r in POk (demote (rename_sys ren sy)).
+
+Definition parse_text_v (v : code_variant) (dbg : bool) (text : string) : pres sys :=
+  parse_lines_v v dbg (map tokenize (split_lines text)).
+
+Definition parse_text_raw_v (v : code_variant) (dbg : bool) (text : string) : pres (sys * list (expr * string)) :=
+  parse_raw_v v dbg (map tokenize (split_lines text)).
